@@ -54,7 +54,7 @@ Theorem response_linear_antenna :
   Antenna_apply_response (sig_filter_of F) self (sig_lincomb a b x y) dir pol fr
   = opt_lincomb a b (Antenna_apply_response (sig_filter_of F) self x dir pol fr)
                     (Antenna_apply_response (sig_filter_of F) self y dir pol fr).
-Proof. intros F H1 H2. exact (antenna_response_linear F H1 H2). Qed.
+Proof. exact response_linear_antenna_stmt. Qed.
 Print Assumptions response_linear_antenna.
 
 Theorem response_linear_dipole :
@@ -67,7 +67,7 @@ Theorem response_linear_dipole :
   DipoleAntenna_apply_response (sig_filter_of F) self (sig_lincomb a b x y) dir pol fr
   = opt_lincomb a b (DipoleAntenna_apply_response (sig_filter_of F) self x dir pol fr)
                     (DipoleAntenna_apply_response (sig_filter_of F) self y dir pol fr).
-Proof. intros F H1 H2. exact (dipole_response_linear F H1 H2). Qed.
+Proof. exact response_linear_dipole_stmt. Qed.
 Print Assumptions response_linear_dipole.
 
 (* --- rotating axes, arrival direction and polarization by the same rotation (and moving the
@@ -99,7 +99,7 @@ Print Assumptions rotation_covariant_coordinates.
 Theorem rotation_identities : forall a b c d u v,
   vdot (qrot a b c d u) (qrot a b c d v) = qn2 a b c d * qn2 a b c d * vdot u v /\
   vcross (qrot a b c d u) (qrot a b c d v) = vscale (qn2 a b c d) (qrot a b c d (vcross u v)).
-Proof. intros. split; [apply qrot_dot | apply qrot_cross]. Qed.
+Proof. exact rotation_identities_stmt. Qed.
 Print Assumptions rotation_identities.
 
 (* --- dipole gains --------------------------------------------------------------------------- *)
@@ -110,10 +110,7 @@ Theorem dipole_gains : forall self dv p,
   dip_dgain self (Some dv) = sqrt (1 - vdot (Ant_z_axis self) dhat * vdot (Ant_z_axis self) dhat) /\
   (exists theta, 0 <= theta <= PI /\ cos theta = vdot (Ant_z_axis self) (vopp dhat) /\ dip_dgain self (Some dv) = sin theta) /\
   dip_pgain self (Some p) = vdot (Ant_z_axis self) (vnormalize p).
-Proof.
-  intros self dv p H1 H2. destruct (dipole_directional_gain self dv H1 H2) as (A & B & C).
-  repeat split; try assumption.
-Qed.
+Proof. exact dipole_gains_stmt. Qed.
 Print Assumptions dipole_gains.
 
 (* --- the order-1 Butterworth band-pass is passive --------------------------------------------- *)
@@ -137,7 +134,7 @@ Theorem dipole_output_energy_bound :
   exists k, sg_values o = map (Rmult k) (F (sg_times s) (sg_values s)
                (fun f => DipoleAntenna_frequency_response (dipole_of_params pos z x eff fc bw eh) f) fr)
             /\ energy (sg_values o) <= k * k * energy (sg_values s).
-Proof. intros F H. exact (dipole_energy_bound F H). Qed.
+Proof. exact dipole_output_energy_bound_stmt. Qed.
 Print Assumptions dipole_output_energy_bound.
 
 (* --- AntennaSystem forwards set-up and response to its antenna ------------------------------- *)
@@ -162,13 +159,13 @@ Print Assumptions set_orientation_normalises_and_checks.
 Theorem receive_rejects_before_state_change : forall (P : Type) (apply : Sig -> P -> option Sig) signals lens_ok inputs,
   (exists s p, In (s, p) inputs /\ apply s p = None) ->
   receive_model apply signals lens_ok inputs = (signals, RecvValueError).
-Proof. intros P. exact (@receive_rejects_atomically P). Qed.
+Proof. exact receive_rejects_before_state_change_stmt. Qed.
 Print Assumptions receive_rejects_before_state_change.
 
 Theorem receive_appends_one_or_nothing : forall (P : Type) (apply : Sig -> P -> option Sig) signals lens_ok inputs,
   let '(st, r) := receive_model apply signals lens_ok inputs in
   (r = RecvOk /\ exists total, st = signals ++ [total]) \/ (r <> RecvOk /\ st = signals).
-Proof. intros P. exact (@receive_state_cases P). Qed.
+Proof. exact receive_appends_one_or_nothing_stmt. Qed.
 Print Assumptions receive_appends_one_or_nothing.
 
 Theorem receive_sums_components : forall (P : Type) (apply : Sig -> P -> option Sig) signals s1 p1 s2 p2 o1 o2,
@@ -177,9 +174,5 @@ Theorem receive_sums_components : forall (P : Type) (apply : Sig -> P -> option 
   receive_model apply signals true [(s1, p1)] = (signals ++ [o1], RecvOk) /\
   receive_model apply signals true [(s1, p1); (s2, p2)]
   = (signals ++ [mkSig (sg_times o1) (vals_add (sg_values o1) (sg_values o2)) ty_voltage], RecvOk).
-Proof.
-  intros P apply signals s1 p1 s2 p2 o1 o2 H1 H2 T Y1 Y2. split.
-  - apply receive_single; assumption.
-  - apply receive_pair; assumption.
-Qed.
+Proof. exact receive_sums_components_stmt. Qed.
 Print Assumptions receive_sums_components.
